@@ -2,6 +2,7 @@ import Pearl.Proofs.MaintLemmas
 import Pearl.Props.C01
 import Pearl.Props.C04
 import Pearl.Proofs.AcctLemmas
+import Pearl.Proofs.AcctDriver
 /-
 C15: accounting.  The count getters always match the operation history, every operation changes the
 total by exactly the number of records it appended, and blob ids are never reused.
@@ -457,13 +458,70 @@ example :
     Acct.report (Acct.addIdx s 7 ⟨55, 0⟩) = Acct.report s ∧
       Acct.dirTotal (Acct.addIdx s 7 ⟨55, 0⟩) = Acct.dirTotal s + 55 := by decide
 
+/-! #### the model in lock-step with the implementation (`fcounts` correspondence)
+
+The correspondence driver (`Pearl/Model/Driver.lean`) carries an `Acct.State` (`d.acct`, `Pearl/Model/AcctScript.lean`),
+steps it by the `Acct.AOp`s every script line stands for, and answers the `fcounts` command from it; the harness
+answers `fcounts` from the real `Storage` getters and a listing of the real directory, and the two answers are
+compared line by line.  The theorems below say that whatever the script, the state `fcounts` is printed from is a state
+of the proved model, run with the real record sizes and the real index file length. -/
+
+/-- for every script the accounting state of the driver is `Acct.run` of some operations, under the configuration of
+    the scenario the driver is in -/
+theorem driver_acct_is_run (lines : List String) :
+    ∃ ops : List Acct.AOp,
+      (Driver.runScript lines).acct.st =
+        Acct.run (Driver.runScript lines).acct.cfg (Driver.runScript lines).acct.dup ops :=
+  Driver.acct_is_run lines
+
+/-- … so the four identities hold of every state the driver answers `fcounts` from -/
+theorem driver_acct_inv (lines : List String) :
+    AcctInv (Driver.runScript lines).acct.cfg (Driver.runScript lines).acct.st :=
+  .of_inv (Driver.acct_inv lines)
+
+/-- `fcounts` is answered from that state, and does not change the driver state -/
+theorem driver_fcounts (d : Driver.DState) (line : String)
+    (h : (Driver.acctToks line).filter (fun t => !t.startsWith "@") = ["fcounts"]) :
+    Driver.step d line = (d, AcctScript.showFcounts d.acct) :=
+  Driver.step_fcounts d line h
+
+/-- `Acct.Cfg.idxLen` of the driver is the length of the index file image of the L4 byte model (C09), for every key
+    length below the fan-out bound of C09 -/
+theorem driver_idxLen_real (a : AcctScript.AD) (hK : a.klen ≤ 2032) (b : Blob) :
+    a.cfg.idxLen b.recs = (Driver.indexImage a.klen b (a.metaLen.getD 0)).length :=
+  (AcctScript.idxLenReal_eq_image a.klen hK b _).symm
+
+-- a concrete script (instantiation; the statements have no hypothesis to be vacuous about)
+example := driver_acct_inv ["cfg key=4 dup=1 bloom=off ignore=0 @meta=89", "w 00000001 5 - 10 1", "force always",
+  "nomodel", "restart bdmg=0:magic", "fcounts"]
+-- the real index file of two 4-byte-key records without a bloom filter has 310 bytes (`indexsum` of the
+-- implementation: `0:310:89:…`); two keys with 3 + 1 records: 83 + 89 + 16 + 4 * 61
+example : AcctScript.idxLenReal 4 89 [⟨1, 5, false, none, ⟨10, 1⟩⟩, ⟨2, 5, false, none, ⟨10, 2⟩⟩] = 310 := by
+  decide
+example : AcctScript.idxLenReal 4 89
+    [⟨1, 5, false, none, ⟨10, 1⟩⟩, ⟨2, 5, false, none, ⟨0, 0⟩⟩, ⟨1, 7, true, none, ⟨0, 0⟩⟩, ⟨1, 3, false, some [1], ⟨3, 3⟩⟩] =
+    83 + 89 + 16 + 4 * 61 := by decide
+-- seven records with 1000-byte keys: three leaf blocks under a root node of two keys; the implementation's index file
+-- has 11611 bytes with a filter section of 2081 (`indexsum`: `0:11611:2081:…`)
+example : AcctScript.idxLenReal 1000 2081 ((List.range 7).map fun i => ⟨i + 1, 5, false, none, ⟨0, 0⟩⟩) = 11611 := by
+  decide
+example : AcctScript.metaLenOf 4 0 = 89 ∧ AcctScript.metaLenOf 1 64 = 91 ∧ AcctScript.metaLenOf 1000 0 = 2081 := by
+  decide
+
 /-
 NOT YET PROVED (C15, file part):
 * the link between `Acct.step` and the real file operations is by construction of the model from the sources
-  listed in `Pearl/Model/Acct.lean` (the event-level model `Pearl/Model/Fs.lean` covers the same operations and is
-  tied to the implementation by the trace correspondence check; `Acct` is not yet projected onto it);
-  `idxLen` (length of an index file as a function of the records) is a parameter, not derived from the
-  B+tree serializer of C09;
+  listed in `Pearl/Model/Acct.lean`, and — new — by the `fcounts` correspondence check: the driver steps `Acct.State`
+  in lock-step with the script (`driver_acct_is_run`) and its answers are compared with the implementation's.  What
+  the correspondence does NOT cover (the driver answers `fcounts ?`): damage whose effect the record scanner decides
+  (`cut`, `dflip`: a blob that stays readable with a shorter file or without its index file is not an `Acct.AOp`),
+  index damage / removal between sessions, fault injection, really cancelled operations, requests left in the
+  worker's queue at `close`;  a rotation that meets a still running dump task (the dump is then deferred) is
+  assumed not to happen: scripts probe (`fcounts` quiesces) between rotations;
+* `idxLen` is now the real one for the driver (`driver_idxLen_real`: `fileSize` of the C09 serializer model = length
+  of its byte image); the length of the filter section is an input (`@meta=` / `@bits=` from the implementation;
+  `AcctScript.metaLenOf` is read off `serialize_filters` and agreed with the implementation on every configuration
+  tried); the theorems over `Acct.run` stay parametric in `idxLen`;
 * `disk_used` as a function of the history alone is proved where every non-empty held blob has its index on
   disk (`Acct.Inv.diskUsed_closed_form`, `disk_used_after_lazy_restart`); in between, the index-file term is the
   length of the file found in the directory (`acct_disk_used_history`), which `Acct.BlobOK.snap` ties to a
